@@ -50,6 +50,9 @@ type Config struct {
 	MinMethods  int
 	// AltNames uses a second set of service names (for a second file of the same world).
 	AltNames bool
+	// MockSafe restricts response messages to the shapes the mock generator supports
+	// (other shapes live in probe worlds).
+	MockSafe bool
 }
 
 // Feature names.
@@ -96,6 +99,7 @@ const (
 	RDupMethodHeader = "risky_same_header_on_two_methods"
 	RPathNoSlash     = "risky_path_without_leading_slash"
 	RMockRecursive   = "risky_mock_with_recursive_type"
+	RPathVarDigit    = "risky_path_variable_named_with_underscore_digit"
 	ROptionalOverride = "risky_optional_method_header_overrides_required_service_header"
 	RSameMethodName  = "risky_same_method_name_in_two_services"
 )
@@ -299,7 +303,8 @@ func (x *g) fieldName(taken map[string]bool) string {
 			n = pick(x.r, fieldWords)
 		}
 		if taken[n] {
-			n = fmt.Sprintf("%s_%d", n, len(taken))
+			// not "<name>_<digit>": protoc-gen-go keeps that underscore ("Id_2") — probe worlds only
+			n = fmt.Sprintf("%s_v%d", n, len(taken))
 		}
 		if !taken[n] && !goKeywordish(n) {
 			taken[n] = true
@@ -513,7 +518,7 @@ func (x *g) method(s *spec.Service, name string, idx int, usedRoutes map[string]
 	if x.has(FPathVars) && m.HasConfig && !x.has(RVerbOnly) {
 		nVars = x.r.intn(4)
 	}
-	if x.has(RPathQueryTS) {
+	if x.has(RPathQueryTS) || x.has(RPathVarDigit) {
 		nVars = 1
 	}
 	var segs []string
@@ -521,6 +526,10 @@ func (x *g) method(s *spec.Service, name string, idx int, usedRoutes map[string]
 	var vars []string
 	for i := 0; i < nVars; i++ {
 		fn := x.fieldName(taken)
+		if x.has(RPathVarDigit) {
+			fn = fmt.Sprintf("id_%d", i+2)
+			taken[fn] = true
+		}
 		k := pick(x.r, pathKinds)
 		req.Fields = append(req.Fields, &spec.Field{Name: fn, Number: num, Kind: k})
 		num++
@@ -626,10 +635,14 @@ func (x *g) method(s *spec.Service, name string, idx int, usedRoutes map[string]
 	var rn int32 = 1
 	n := x.r.intn(6)
 	for i := 0; i < n; i++ {
-		resp.Fields = append(resp.Fields, x.bodyField(resp, rt, rn))
+		if x.cfg.MockSafe {
+			resp.Fields = append(resp.Fields, x.mockSafeField(rt, rn, 0))
+		} else {
+			resp.Fields = append(resp.Fields, x.bodyField(resp, rt, rn))
+		}
 		rn++
 	}
-	if x.has(FOneof) && x.r.chance(1, 3) {
+	if x.has(FOneof) && x.r.chance(1, 3) && !x.cfg.MockSafe {
 		resp.Oneofs = append(resp.Oneofs, &spec.Oneof{Name: "result"})
 		resp.Fields = append(resp.Fields,
 			&spec.Field{Name: x.fieldName(rt), Number: rn, Kind: "string", Oneof: "result"},
@@ -670,7 +683,7 @@ func (x *g) method(s *spec.Service, name string, idx int, usedRoutes map[string]
 	x.f.Messages = append(x.f.Messages, req, resp)
 	if len(x.annMsgs) > 0 {
 		// annotated type in top-level position (where the custom codec is what the server and client call)
-		if x.r.chance(1, 3) {
+		if x.r.chance(1, 3) && !x.cfg.MockSafe {
 			m.Out = x.fq(pick(x.r, x.annMsgs))
 		}
 		if !bodyless && nVars == 0 && !wantQuery && x.r.chance(1, 4) {
@@ -792,4 +805,75 @@ func (x *g) annotatedTypes() {
 		add(&spec.Message{Name: "AnnRootMap", Fields: []*spec.Field{
 			{Name: "by_key", Number: 1, Kind: "message", TypeName: x.fq("Item"), Card: "map", MapKey: "string", Unwrap: true}}})
 	}
+}
+
+// mockSafeField draws a response field of a shape the mock generator handles:
+// singular string / int64 / bool / double (filled, optionally with examples),
+// kinds it skips (enum, bytes, unsigned and s/fixed integers, any cardinality),
+// singular nested messages of the same shapes, maps with scalar non-enum values.
+func (x *g) mockSafeField(taken map[string]bool, num int32, depth int) *spec.Field {
+	f := &spec.Field{Name: x.fieldName(taken), Number: num}
+	switch x.r.intn(10) {
+	case 0, 1, 2:
+		f.Kind = "string"
+	case 3:
+		f.Kind = "int64"
+	case 4:
+		f.Kind = "bool"
+	case 5:
+		f.Kind = "double"
+	case 6:
+		f.Kind = pick(x.r, []string{"uint32", "uint64", "sint32", "fixed64", "bytes"})
+		if x.r.chance(1, 3) {
+			f.Card = "repeated"
+		}
+	case 7:
+		if x.has(FEnum) {
+			f.Kind, f.TypeName = "enum", x.fq("Color")
+		} else {
+			f.Kind = "string"
+		}
+	case 8:
+		if x.has(FMap) {
+			f.Kind, f.Card, f.MapKey = pick(x.r, []string{"string", "int64", "bool", "double"}), "map", pick(x.r, []string{"string", "int32", "int64", "bool"})
+		} else {
+			f.Kind = "int64"
+		}
+	case 9:
+		if x.has(FNested) && depth == 0 {
+			f.Kind, f.TypeName = "message", x.fq("MockLeaf")
+			x.needMockLeaf()
+		} else {
+			f.Kind = "bool"
+		}
+	}
+	if x.has(FExamples) && f.Card == "" && x.r.chance(1, 2) {
+		switch f.Kind {
+		case "string":
+			f.Examples = pick(x.r, [][]string{{"alpha", "beta", "gamma"}, {"only"}, {"é", "x y", "a-b"}})
+		case "int64":
+			f.Examples = pick(x.r, [][]string{{"1", "2", "3"}, {"-7"}, {"9007199254740993", "0"}, {"12", "not-a-number"}})
+		case "bool":
+			f.Examples = pick(x.r, [][]string{{"true"}, {"false", "true"}, {"maybe", "true"}})
+		case "double":
+			f.Examples = pick(x.r, [][]string{{"1.5", "2.25"}, {"-0.5"}, {"1e3", "x"}})
+		}
+	}
+	return f
+}
+
+func (x *g) needMockLeaf() {
+	for _, m := range x.f.Messages {
+		if m.Name == "MockLeaf" {
+			return
+		}
+	}
+	leaf := &spec.Message{Name: "MockLeaf", Fields: []*spec.Field{
+		{Name: "title", Number: 1, Kind: "string"}, {Name: "amount", Number: 2, Kind: "int64"},
+		{Name: "ratio", Number: 3, Kind: "double"}, {Name: "enabled", Number: 4, Kind: "bool"}, {Name: "raw", Number: 5, Kind: "bytes"}}}
+	if x.has(FExamples) {
+		leaf.Fields[0].Examples = []string{"leaf-a", "leaf-b"}
+		leaf.Fields[1].Examples = []string{"100", "200", "300"}
+	}
+	x.f.Messages = append(x.f.Messages, leaf)
 }
